@@ -2,7 +2,7 @@
 C08 — round 5 property theorems: keys with dots.  `readKeys` / `getValue` / `getValueWithChainedKeys` are inside the model
 (`Model.lookupKey`); `accept_sound`, `accept_complete`, `no_panic` and the clause theorems of PropsR4 now speak about the path
 through them, for every option set (`Cfg.opaqueKeys` = WithOpaqueKeys on/off together with every other option) and for both
-positions of a struct (`Cfg.nested`).  Here: what the lookup is, clause by clause.
+positions of a struct (`Cfg.anc`: the enclosing objects).  Here: what the lookup is, clause by clause.
 -/
 import GoZero.C08.PropsR4
 namespace GoZero.C08.Props
@@ -23,7 +23,7 @@ theorem lookupKey_plain (c : Cfg) (key : Str) (m : Obj) (h : key.contains '.' = 
 
 /-- the lookup of a key never panics and never depends on the options other than `opaqueKeys` and the position -/
 theorem lookupKey_options (c : Cfg) (key : Str) (m : Obj) :
-    lookupKey c key m = lookupKey { opaqueKeys := c.opaqueKeys, nested := c.nested } key m
+    lookupKey c key m = lookupKey { opaqueKeys := c.opaqueKeys, anc := c.anc } key m
     ∧ lookupKey c key m ≠ .error .panic :=
   ⟨rfl, NP_lookupKey c key m⟩
 
